@@ -17,6 +17,7 @@ import (
 	"regexp"
 	"sort"
 	"strings"
+	"time"
 	"unicode/utf8"
 
 	"github.com/compose-spec/compose-go/v2/cli"
@@ -38,6 +39,7 @@ type c17EnvFile struct {
 type c17Opt struct {
 	Op string   `json:"op"` // name | env | osenv | envfiles | dotenv
 	V  string   `json:"v,omitempty"`
+	A  bool     `json:"alt,omitempty"` // workdir: true = the alternative directory, false = ""
 	L  []string `json:"l,omitempty"`
 }
 
@@ -49,6 +51,8 @@ type c17Args struct {
 	DotEnv   *c17EnvFile  `json:"dotenv"` // <project dir>/.env
 	Opts     []c17Opt     `json:"opts"`
 	Probe    string       `json:"probe"`
+	AltDir   string       `json:"altdir,omitempty"`    // base name of the directory handed to WithWorkingDirectory
+	AltDot   *c17EnvFile  `json:"altdotenv,omitempty"` // its .env
 }
 
 var c17ErrClasses = []struct {
@@ -145,6 +149,20 @@ func realC17Load(raw json.RawMessage) any {
 			return map[string]any{"bad": err.Error()}
 		}
 	}
+	adir := filepath.Join(root, "q", a.AltDir)
+	if a.AltDir != "" {
+		if err := os.MkdirAll(adir, 0o755); err != nil || filepath.Base(adir) != a.AltDir {
+			return map[string]any{"bad": "alternative directory name not usable"}
+		}
+		if a.AltDot != nil {
+			p := filepath.Join(adir, ".env")
+			if a.AltDot.Dir {
+				os.MkdirAll(p, 0o755)
+			} else if err := os.WriteFile(p, []byte(c17EnvText(*a.AltDot)), 0o644); err != nil {
+				return map[string]any{"bad": err.Error()}
+			}
+		}
+	}
 	var fns []cli.ProjectOptionsFn
 	for _, o := range a.Opts {
 		switch o.Op {
@@ -162,6 +180,15 @@ func realC17Load(raw json.RawMessage) any {
 			fns = append(fns, cli.WithEnvFiles(l...))
 		case "dotenv":
 			fns = append(fns, cli.WithDotEnv)
+		case "workdir":
+			if o.A {
+				if a.AltDir == "" {
+					return map[string]any{"bad": "workdir without altdir"}
+				}
+				fns = append(fns, cli.WithWorkingDirectory(adir))
+			} else {
+				fns = append(fns, cli.WithWorkingDirectory(""))
+			}
 		default:
 			return map[string]any{"bad": "unknown option " + o.Op}
 		}
@@ -396,7 +423,7 @@ type c17NormArgs struct {
 }
 
 func init() {
-	core.Register("c17load", &core.CheckDef{Real: realC17Load, DriverOp: "c17load", Judge: c17Judge})
+	core.Register("c17load", &core.CheckDef{Real: realC17Load, DriverOp: "c17load", Judge: c17Judge, Timeout: 60 * time.Second})
 	core.Register("c17norm", &core.CheckDef{
 		Real: func(raw json.RawMessage) any {
 			var a c17NormArgs
